@@ -116,7 +116,8 @@ def _iterate_matching_pairs(
         n: t for n, t in new_schema.types.items() if isinstance(t, cls)
     }  # type: Dict[str, TGraphQLType]
 
-    for name, old_type in old_types.items():
+    # Sorted so that the result does not depend on the order of definitions.
+    for name, old_type in sorted(old_types.items()):
         if is_introspection_type(old_type):
             continue
 
@@ -171,19 +172,19 @@ def diff_schema(
 
 
 def _find_removed_types(old: Schema, new: Schema) -> Iterator[SchemaChange]:
-    for name in old.types.keys():
+    for name in sorted(old.types.keys()):
         if name not in new.types:
             yield TypeRemoved(name)
 
 
 def _find_added_types(old: Schema, new: Schema) -> Iterator[SchemaChange]:
-    for name in new.types.keys():
+    for name in sorted(new.types.keys()):
         if name not in old.types:
             yield TypeAdded(name)
 
 
 def _find_changed_types(old: Schema, new: Schema) -> Iterator[SchemaChange]:
-    for name, old_type in old.types.items():
+    for name, old_type in sorted(old.types.items()):
         try:
             new_type = new.types[name]
         except KeyError:
